@@ -75,6 +75,9 @@ inductive UStmt
   | whileFitsSub (b : Blk) (f : String) (typ : String) (size : Nat)   -- for offset+size <= len(blk) { … }
   | cstrUnicode (f : String)            -- s, offset := GetNullTerminatedUnicodeString(D); c.F = s
   | readArr3 (b : Blk) (f : String)     -- c.F = [3]ULONG{…} (WriteAndClose)
+  -- if c.GetAndX() == nil { c.SetAndX(andx.NewAndX()) }; _, err = c.GetAndX().Unmarshal(P); if err != nil { return 0, err }
+  | readAndX
+  | resliceP (n : Nat)                  -- P = P[n:]
   deriving Repr, Inhabited
 
 structure Cmd where
@@ -210,9 +213,25 @@ def runMStmts (C : Codecs) (isAndX : Bool) (s : MState) : List MStmt → Outcome
   | st :: rest => do let s' ← runMStmt C isAndX s st; runMStmts C isAndX s' rest
 end
 
+/-- the name under which the AndX block of an AndX command (`Command.AndX`, a pointer: absent = nil) is kept among
+    the field values; no declared field can have it (the extractor refuses a structure declaring `AndX`, which would
+    shadow the promoted field) -/
+def andxField : String := "AndX"
+
+/-- `AndXCommand, AndXReserved, AndXOffset` as `andx.AndX.Unmarshal` reads them from four bytes -/
+def andxVal (a b c d : UInt8) : Val := .ns [a.toNat, b.toNat, 256 * c.toNat + d.toNat]
+
+/-- the AndX block `Marshal` creates when none is set: `andx.NewAndX()` with `AndXCommand = SMB_COM_NO_ANDX_COMMAND` -/
+def defaultAndX : Val := .ns [255, 0, 0]
+
+/-- the fixed prologue of every `Marshal`: `if c.IsAndX() { if c.GetAndX() == nil { c.SetAndX(andx.NewAndX());
+    c.GetAndX().AndXCommand = codes.SMB_COM_NO_ANDX_COMMAND } … }` — the command holds an AndX block afterwards -/
+def prologueEnv (isAndX : Bool) (env : Env) : Env :=
+  if isAndX && (env.get andxField).isNone then env.set andxField defaultAndX else env
+
 /-- the two raw streams (and the bytes ahead of the parameter block) a command's Marshal builds from its fields -/
 def runM (C : Codecs) (c : Cmd) (env : Env) : Outcome MState :=
-  runMStmts C c.isAndX { env := env } c.marshal
+  runMStmts C c.isAndX { env := prologueEnv c.isAndX env } c.marshal
 
 /-! ## Unmarshal -/
 
@@ -420,6 +439,15 @@ def runUStmt (C : Codecs) (s : UState) : UStmt → Step UState
           sliceC (s.blk b) (s.ext b) (s.offset + 8) (s.offset + 12) with
     | .ok x, .ok y, .ok z => .next { s with env := s.env.set f (.ns [leNat x, leNat y, leNat z]) }
     | _, _, _ => .panic
+  | .readAndX =>
+    -- `andx.AndX.Unmarshal`: an error below four bytes; AndXCommand = P[0], AndXReserved = P[1],
+    -- AndXOffset = BigEndian.Uint16(P[2:4]); kept under the pseudo-field `andxField`
+    match s.P with
+    | a :: b :: c :: d :: _ => .next { s with env := s.env.set andxField (andxVal a b c d) }
+    | _ => .err
+  | .resliceP n =>
+    -- Go `P[n:]`: panics unless `n ≤ len(P)`; what lies behind the stream stays where it is
+    liftO (fun st bs => { st with P := bs }) s (sliceFrom s.P n)
 def runUStmts (C : Codecs) (s : UState) : List UStmt → Step UState
   | [] => .next s
   | st :: rest =>
